@@ -1110,26 +1110,28 @@ impl Mem {
                 tally!(got);
             }
             20 => {
-                // references handed out for aligned objects
+                // references handed out for aligned objects (types whose size and alignment differ included)
                 j.kind = "aligned_as_mut";
+                let tsel = cx().a(6) as usize;
+                let (ti, sz, al) = [(2usize, 4usize, 4usize), (3, 8, 8), (11, 10, 2), (12, 16, 8), (19, 12, 4), (10, 3, 1)][tsel];
                 let addr = {
                     let a = gen_off(vlen);
                     let host = conts[ci].ptr as usize + voff + a;
-                    if cx().a(3) != 0 { a + (4 - host % 4) % 4 } else { a }
+                    if cx().a(3) != 0 { a + (al - host % al) % al } else { a }
                 };
-                let fits = addr.checked_add(4).map(|e| e <= vlen).unwrap_or(false);
-                let aligned = (conts[ci].ptr as usize + voff + addr) % 4 == 0;
-                j.desc = format!("aligned_as_mut::<u32>({}) then write / aligned_as_ref read", addr);
-                let val = u32::from_le_bytes([pat(stamp, 0), pat(stamp, 1), pat(stamp, 2), pat(stamp, 3)]);
+                let fits = addr.checked_add(sz).map(|e| e <= vlen).unwrap_or(false);
+                let aligned = (conts[ci].ptr as usize + voff + addr) % al == 0;
+                j.desc = format!("aligned_as_mut::<{}>({}) then write / aligned_as_ref read", TYPE_NAMES[ti], addr);
+                let bytes: Vec<u8> = (0..sz).map(|i| pat(stamp, i)).collect();
                 let ok = fits && aligned;
-                let got = with_allowed(rid, &[(abs(addr), abs(addr) + if ok { 4 } else { 0 })], || {
+                let got = with_allowed(rid, &[(abs(addr), abs(addr) + if ok { sz } else { 0 })], || {
                     // SAFETY: single-threaded; nobody else uses the bytes during this statement.
-                    flat(catch(|| unsafe { view.aligned_as_mut::<u32>(addr).map(|r| *r = val).and_then(|()| view.aligned_as_ref::<u32>(addr).map(|r| r.to_ne_bytes().to_vec())) }), |r| match r { Ok(b) => Obs::Bytes(b), Err(e) => obs_err(&e) })
+                    with_type!(ti, T => flat(catch(|| unsafe { view.aligned_as_mut::<T>(addr).map(|r| *r = mk::<T>(&bytes)).and_then(|()| view.aligned_as_ref::<T>(addr).map(|r| bytes_of(r))) }), |r| match r { Ok(b) => Obs::Bytes(b), Err(e) => obs_err(&e) }))
                 });
-                let exp = if !fits { Obs::Oob } else if !aligned { Obs::Misaligned } else { Obs::Bytes(val.to_ne_bytes().to_vec()) };
+                let exp = if !fits { Obs::Oob } else if !aligned { Obs::Misaligned } else { Obs::Bytes(bytes.clone()) };
                 if ok {
-                    conts[ci].model[voff + addr..voff + addr + 4].copy_from_slice(&val.to_ne_bytes());
-                    note_w(ci, voff + addr, voff + addr + 4);
+                    conts[ci].model[voff + addr..voff + addr + sz].copy_from_slice(&bytes);
+                    note_w(ci, voff + addr, voff + addr + sz);
                 }
                 j.expect(&got, &exp);
                 tally!(got);
